@@ -97,6 +97,10 @@ struct StreamSlot {
 };
 constexpr int kStreamSlots = 4;
 
+// sizes harvested from integer literals in the library's headers (defined by the generated harness)
+extern const long kInterestingSizes[];
+extern const int kNInterestingSizes;
+
 // ---------------------------------------------------------------------------------- context
 inline std::uint64_t splitmix(std::uint64_t& s) {
   s += 0x9E3779B97F4A7C15ULL;
@@ -229,6 +233,10 @@ inline constexpr int kNumberGrammarSize = static_cast<int>(sizeof(kNumberGrammar
 inline std::string arbitrary_bytes(Ctx& c) {
   static const int lens[] = {0, 1, 1, 2, 3, 4, 5, 8, 15, 16, 17, 31, 64, 200, 255, 256, 257, 1000, 5000};
   size_t n = static_cast<size_t>(lens[c.below(c.below(8) ? 14 : 19)]);
+  if (c.below(24) == 0 && kNInterestingSizes > 0) {
+    long k = kInterestingSizes[c.below(static_cast<std::uint64_t>(kNInterestingSizes))];
+    if (k <= 70000) n = static_cast<size_t>(k);
+  }
   std::string s;
   std::uint64_t style = c.below(4);
   for (size_t i = 0; i < n; ++i) {
@@ -373,8 +381,18 @@ template <class T>
 struct Maker<std::vector<T>> {
   static std::vector<T> make(Ctx& c) {
     static const int sizes[] = {0, 0, 1, 2, 3, 4, 7, 8, 9, 16, 33, 64, 255, 1000, 4097};
-    std::vector<T> v(static_cast<size_t>(sizes[c.below(c.below(6) ? 12 : 15)]));
-    for (auto& x : v) x = vrt::make<T>(c);
+    size_t n = static_cast<size_t>(sizes[c.below(c.below(6) ? 12 : 15)]);
+    const std::uint64_t how = c.below(32);
+    if (how < 3 && kNInterestingSizes > 0) n = static_cast<size_t>(kInterestingSizes[c.below(static_cast<std::uint64_t>(kNInterestingSizes))]);
+    else if (how == 3) n = static_cast<size_t>(std::exp2(static_cast<double>(c.below(1700)) / 100.0));   // log-uniform up to ~131 000
+    std::vector<T> v(n);
+    if (n > 4096) {  // long sequences: a few distinct values repeated, so that set-up stays cheap
+      T pool[8];
+      for (auto& x : pool) x = vrt::make<T>(c);
+      for (size_t i = 0; i < n; ++i) v[i] = pool[i & 7];
+    } else {
+      for (auto& x : v) x = vrt::make<T>(c);
+    }
     return v;
   }
 };
